@@ -98,3 +98,28 @@ Example C12_ex_touch : intervals_overlap 0 1 1 2 None None = Ok true
                     /\ compute_bounds (TimeStamp 3) = Some (3, 0, 3, MAXF).
 Proof. vm_compute. repeat split. Qed.
 Print Assumptions C12_ex_touch.
+
+(* ---- the same predicates as READ FROM THE SOURCE (Gen/Source.v is regenerated from
+   soundevent/geometry/operations.py on every run): they compute what the model above computes,
+   so every theorem of this file is a theorem about the code as it is written now. ---- *)
+From SE Require Gen.Source Gen.EquivOps.
+
+Theorem C12_src_intervals_overlap : forall s1 e1 s2 e2 a r,
+  Source.intervals_overlap (s1, e1) (s2, e2) a r = intervals_overlap s1 e1 s2 e2 a r.
+Proof. exact EquivOps.src_intervals_overlap. Qed.
+Print Assumptions C12_src_intervals_overlap.
+
+Theorem C12_src_have_temporal_overlap : forall g1 g2 a r,
+  Source.have_temporal_overlap g1 g2 a r = have_temporal_overlap g1 g2 a r.
+Proof. exact EquivOps.src_have_temporal_overlap. Qed.
+Print Assumptions C12_src_have_temporal_overlap.
+
+Theorem C12_src_have_frequency_overlap : forall g1 g2 a r,
+  Source.have_frequency_overlap g1 g2 a r = have_frequency_overlap g1 g2 a r.
+Proof. exact EquivOps.src_have_frequency_overlap. Qed.
+Print Assumptions C12_src_have_frequency_overlap.
+
+Theorem C12_src_is_in_clip : forall g cs ce m,
+  Source.is_in_clip g cs ce m = is_in_clip g cs ce m.
+Proof. exact EquivOps.src_is_in_clip. Qed.
+Print Assumptions C12_src_is_in_clip.
